@@ -41,10 +41,9 @@ def interpNew (length : IntParam) : Except Err Nat :=
 
 /-- `TSInterpolator(length).fit(..).transform(X)`: `X.apply(_resize_col)`: column by column, cell by
 cell; the result has the same rows and columns -/
-def interpolate (kind : CellKind) (length : IntParam) (X : Panel) : Except Err Panel := do
+def interpolate (length : IntParam) (X : Panel) : Except Err Panel := do
   let L ← interpNew length
   checkX X
-  if kind = .array then .error .attr             -- `cell.to_numpy()` on an ndarray cell
-  else X.mapM (fun inst => inst.mapM (resizeCell L))
+  X.mapM (fun inst => inst.mapM (resizeCell L))
 
 end SkVerif.C14
